@@ -110,6 +110,7 @@ var errExpr = map[string]string{
 	"underscore-variadic": `gjoin("-", "a", _)`,
 	"argcount-variadic":   `gjoin()`,
 	"func":                "fail()",
+	"panic":               "gpanic()", // a user function panicking with a value that is not an error: escapes Execute
 	"len-kind":            "len(5)",
 	"ints-range":          "ints(3, 1)",
 	"pipe-nonfunc":        `"a" | gstr`,
@@ -480,7 +481,7 @@ func atomValue(v string) interface{} {
 }
 
 // classes whose error is raised by a called Go function (no file:line by contract)
-var calleeClasses = map[string]bool{"func": true, "template-exec": true, "yieldarg": true, "len-kind": true, "ints-range": true,
+var calleeClasses = map[string]bool{"func": true, "panic": true, "template-exec": true, "yieldarg": true, "len-kind": true, "ints-range": true,
 	"argcount-jetfunc": true, "underscore-jetfunc": true, "api-assign": true, "api-block": true}
 
 type xObs struct {
@@ -541,6 +542,7 @@ func xBuildOpt(c *xCase, esc jet.SafeWriter, useEsc bool, html bool) (*xWorld, e
 	}
 	set := jet.NewSet(loader, opts...)
 	set.AddGlobal("fail", func() string { panic(errors.New("injected failure")) })
+	set.AddGlobal("gpanic", func() string { panic("injected panic with a non-error value") })
 	set.AddGlobal("usersw", jet.SafeWriter(func(w io.Writer, b []byte) {
 		w.Write([]byte("{"))
 		w.Write(b)
@@ -595,8 +597,10 @@ func xBuildOpt(c *xCase, esc jet.SafeWriter, useEsc bool, html bool) (*xWorld, e
 }
 
 func (w *xWorld) execute(r xRun) (o xObs) {
+	var b bytes.Buffer
 	defer func() {
 		if p := recover(); p != nil {
+			o.Out = b.String()
 			o.Panic = fmt.Sprint(p)
 			if _, ok := p.(runtime.Error); ok {
 				o.Panic = "runtime.Error: " + o.Panic
@@ -628,7 +632,6 @@ func (w *xWorld) execute(r xRun) (o xObs) {
 	if r.Data != "nil" {
 		data = atomValue(r.Data)
 	}
-	var b bytes.Buffer
 	err = t.Execute(&b, vars, data)
 	o.Out = b.String()
 	if err != nil {
@@ -686,6 +689,14 @@ func stageRender(stage, v string) string {
 
 // xCompare checks one execution against the specification's observation.
 func xCompare(w *xWorld, exp xResult, o xObs, esc func(string) string) (bool, string, string) {
+	if exp.Err.On && exp.Err.Class == "panic" {
+		// a user function panicked with a non-error value outside any try: the panic is the caller's to handle,
+		// what was rendered before it has been written
+		if o.Panic == "" || !strings.Contains(o.Panic, "injected panic") {
+			return false, "error", fmt.Sprintf("the injected panic did not reach the caller (panic %q, error %q)", o.Panic, o.Err)
+		}
+		o.Panic, o.Err = "", "panic"
+	}
 	if o.Panic != "" {
 		return false, "panic", "Execute panicked: " + o.Panic
 	}
